@@ -239,3 +239,121 @@ def _register():
 
 
 _register()
+
+
+# ------------------------------------------------------------------------------------------------
+# engine Z: the density screening of get_xc sees the total density only
+# ------------------------------------------------------------------------------------------------
+
+
+class _Captured(Exception):
+    def __init__(self, cond):
+        self.cond = cond
+
+
+class MaskConsistent:
+    """get_xc screens grid points with a mask computed BEFORE the functional is called. For the spin-polarised path to agree
+    with the spin-paired path on closed-shell input (and to be spin-exchange symmetric) for EVERY dens_threshold, the mask must
+    be a function of the total density: mask([a, b], thr) == mask([a + b], thr) for all a, b >= 0 and all thr."""
+
+    def __call__(self, ob, tier, seed):
+        import z3
+
+        from pycv.wp.execute import Vec
+        from pycv.wp.explore import check_valid, explore, named
+        from pycv.wp.interp import OutsideSubset, PyRaise, Sym, World
+        from pycv.wp.numext import NUM_EXT
+
+        try:
+            w = World()
+            mod = w.module("eminus.xc.utils")
+            a, b, thr = named(w, "n_up", "real"), named(w, "n_dw", "real"), named(w, "dens_threshold", "real")
+
+            def red(name):
+                def f(it, args, kwargs):
+                    x = args[0]
+                    if not isinstance(x, Vec):
+                        raise OutsideSubset(f"xp.{name} of a non-vector")
+                    if kwargs.get("axis", args[1] if len(args) > 1 else None) != 0:
+                        raise OutsideSubset(f"xp.{name} over an axis other than the spin axis")
+                    out = x[0]
+                    for y in x[1:]:
+                        if name == "sum":
+                            out = it.binop(__import__("ast").Add, out, y)
+                        else:
+                            oe, ye = out.e, y.e
+                            out = Sym(z3.If(oe >= ye, oe, ye) if name == "max" else z3.If(oe <= ye, oe, ye), "real")
+                    return out
+                return f
+
+            def nonzero(it, args, kwargs):
+                c = args[0]
+                if not (isinstance(c, Sym) and c.kind == "bool"):
+                    raise OutsideSubset("mask is not a comparison of the generic grid point")
+                raise _Captured(c.e)
+
+            ext = dict(NUM_EXT)
+            ext.update({"xp.sum": red("sum"), "xp.max": red("max"), "xp.min": red("min"), "xp.nonzero": nonzero,
+                        "xp.abs": lambda it, a_, k: Sym(z3.If(a_[0].e >= 0, a_[0].e, -a_[0].e), "real")})
+            masks = {}
+            for tag, vec, nspin in (("pol", Vec([a, b]), 2), ("swap", Vec([b, a]), 2), ("unpol", Vec([Sym(a.e + b.e, "real")]), 1)):
+                def run(it, vec=vec, nspin=nspin):
+                    f = it.lookup_global("get_xc", mod)
+                    try:
+                        it.call(f, [("lda_x", "lda_c_pw"), vec, nspin], {"dens_threshold": thr})
+                    except _Captured as c:
+                        return c.cond, None
+                    raise OutsideSubset("get_xc did not compute a screening mask")
+
+                res = explore(w, run, assumptions=[a.e >= 0, b.e >= 0], ext=ext, max_paths=8)
+                if len(res) != 1 or res[0].outcome != "return":
+                    raise OutsideSubset(f"mask computation branches or raises: {[r.outcome for r in res]}")
+                masks[tag] = res[0].value
+            hyp = [a.e >= 0, b.e >= 0]
+            for lab, goal in (("the spin-polarised mask differs from the mask of the total density", masks["pol"] == masks["unpol"]),
+                              ("the mask is not symmetric under exchange of the spin channels", masks["pol"] == masks["swap"])):
+                v, m = check_valid(w, hyp, goal)
+                if v == "refuted":
+                    def val(x):
+                        r = m.eval(x.e, model_completion=True)
+                        return float(r.as_fraction()) if z3.is_rational_value(r) else float(r.approx(20).as_fraction())
+                    wit = dict(n_up=val(a), n_dw=val(b), dens_threshold=val(thr))
+                    ok, info = self.replay(wit)
+                    return Result(REFUTED, backend="z3", witness=wit, replayed=ok, replay_info=info, solver_output=str(m),
+                                  detail=f"get_xc: {lab} (n_up={wit['n_up']}, n_dw={wit['n_dw']}, dens_threshold={wit['dens_threshold']})")
+                if v != "proved":
+                    return Result(UNDECIDED, backend="z3", detail=f"mask clause: {v}")
+            return Result(DISCHARGED, backend="z3", detail="mask(n_up, n_dw, thr) == mask(n_up + n_dw, thr) == mask(n_dw, n_up, thr) for all n_up, n_dw >= 0 and every threshold")
+        except (OutsideSubset, PyRaise, TypeError, AttributeError, KeyError, ValueError, IndexError) as e:
+            wit = dict(n_up=0.75, n_dw=0.75, dens_threshold=1.0)
+            ok, info = self.replay(wit)
+            if ok:
+                return Result(REFUTED, backend="native-contract-evaluation", witness=wit, replayed=True, replay_info=info,
+                              detail=f"get_xc screens closed-shell input differently on the two spin paths ({type(e).__name__}: {e})")
+            return Result(UNDECIDED, backend="engine-Z", detail=f"outside subset: {type(e).__name__}: {e}")
+
+    def replay(self, wit):
+        get_xc = _native_get_xc()
+        a, b, thr = wit["n_up"], wit["n_dw"], wit["dens_threshold"]
+        # grid of three points: the witness and two bystanders well above the threshold
+        big = 10 * (abs(thr) + 1)
+        n_pol = np.array([[a, big, big / 2], [b, big, big / 2]])
+        e_pol = np.asarray(get_xc("lda,pw", n_pol, 2, dens_threshold=thr)[0])
+        e_swap = np.asarray(get_xc("lda,pw", n_pol[::-1].copy(), 2, dens_threshold=thr)[0])
+        bad = abs(e_pol[0] - e_swap[0]) > 1e-12
+        info = dict(exc_pol=float(e_pol[0]), exc_swapped=float(e_swap[0]))
+        if abs(a - b) < 1e-15:
+            e_un = np.asarray(get_xc("lda,pw", n_pol.sum(axis=0)[None, :], 1, dens_threshold=thr)[0])
+            bad = bad or abs(e_pol[0] - e_un[0]) > 1e-12
+            info["exc_unpol"] = float(e_un[0])
+        else:
+            # screened or not must agree with the total density
+            screened = e_pol[0] == 0.0
+            bad = bad or (screened != (not (a + b > thr)))
+            info["screened"] = bool(screened)
+        return bool(bad), dict(check="native get_xc('lda,pw') on the witness grid point", **info)
+
+
+register(Obligation(name="C08.get_xc.screening_mask_total_density", prop=PROP, engine="Z", functions=["eminus.xc.utils:get_xc"], run=MaskConsistent(),
+                    assumes=("engineZ", "z3"), doc="the density screening mask of get_xc depends on the total density only (same on the spin-paired and the "
+                                                   "spin-polarised path, spin-exchange symmetric) for every dens_threshold"))
